@@ -4,7 +4,21 @@
 // This file contains comments and pure specification functions only; it is compiled only with -tags verif.
 package lalr
 
-import symbol "github.com/acekingke/yaccgo/Symbol"
+import (
+	"fmt"
+	"strings"
+
+	symbol "github.com/acekingke/yaccgo/Symbol"
+	utils "github.com/acekingke/yaccgo/Utils"
+	"github.com/awalterschulze/gographviz"
+)
+
+var (
+	_ = fmt.Sprintf
+	_ = strings.Join
+	_ = utils.EscapeDotGraph
+	_ *gographviz.Graph
+)
 
 //@ func (*LALR1).UseDefaultResolveConflict
 //@ props C04
@@ -442,3 +456,51 @@ func spec_walk(l *LALR1, q int, r int, k int) int { panic("spec") }
 //@ loop 0: invariant len(c) >= len(b) && (forall i int :: 0 <= i && i < len(b) ==> c[i] == b[i])
 //@ loop 0: invariant forall v int :: inSet(c, len(c), v) <==> inSet(a, idx0, v) || inSet(b, len(b), v)
 //@ loop 1: invariant found == inSet(b, idx1, v)
+
+// ---------------------------------------------------------------------------------------------
+// C18: the DOT diagram is drawn from the same dense table the generated parser uses.
+//   * one node per state, named state_<n>, in state order, built from that state's items
+//   * an edge (state_s -> state_d, symbol name) exactly for the cells that hold a state number d
+//   * a label field "<symbol>: reduce rule at <r>" exactly for the cells that hold -r
+//   * the label of a state is extended by ALL its reduce fields whenever there is at least one - also for the accepting state
+//@ ghostvar xlen int
+
+//@ def symLabel(l *LALR1, a int) = utils.EscapeDotGraph(utils.RemoveTempName(l.G.Symbols[a].Name))
+//@ def isStateCell(l *LALR1, d int) = d != len(l.G.LR0.LR0Closure) + 100 && d != len(l.G.LR0.LR0Closure) + 200 && d >= 0
+//@ def isEdgeEntry(e int, g *gographviz.Graph, from int, to int, label string) = xlog_fn(e) == "(*gographviz.Graph).AddEdge" && xlog_recv(e) == g &&
+//@     xlog_str(e, 0) == fmt.Sprintf("state_%d", from) && xlog_str(e, 1) == fmt.Sprintf("state_%d", to) && xlog_mapss(e, 3)["label"] == label
+
+//@ func (*LALR1).DrawGrammar
+//@ props C18
+//@ results g
+//@ requires lalr != nil && lalr.G != nil && lalr.G.LR0 != nil && len(tab) == len(lalr.G.LR0.LR0Closure) && len(tab) >= 1
+//@ requires forall s int :: 0 <= s && s < len(lalr.G.LR0.LR0Closure) ==> lalr.G.LR0.LR0Closure[s] != nil && lalr.G.LR0.LR0Closure[s].Index == s &&
+//@     (forall i int :: 0 <= i && i < len(lalr.G.LR0.LR0Closure[s].Items) ==> lalr.G.LR0.LR0Closure[s].Items[i] != nil)
+//@ requires forall s int :: 0 <= s && s < len(tab) ==> len(tab[s]) == len(lalr.G.Symbols)
+//@ requires forall a int :: 0 <= a && a < len(lalr.G.Symbols) ==> lalr.G.Symbols[a] != nil
+// nodes: state s is the s-th node added, under the name state_<s>
+//@ loop 0: invariant graphInst != nil && xlen == before(xlen) + idx0
+//@ loop 0: invariant forall s int :: 0 <= s && s < idx0 ==> xlog_fn(before(xlen)+s) == "(*gographviz.Graph).AddNode" && xlog_str(before(xlen)+s, 1) == fmt.Sprintf("state_%d", s)
+//@ loop 0: invariant forall s int :: 0 <= s && s < idx0 ==> graphInst.Nodes != nil && graphInst.Nodes.Lookup[fmt.Sprintf("state_%d", s)] != nil &&
+//@     has(graphInst.Nodes.Lookup[fmt.Sprintf("state_%d", s)].Attrs, "label") && len(graphInst.Nodes.Lookup[fmt.Sprintf("state_%d", s)].Attrs["label"]) >= 1
+//@ loop 1: invariant graphInst != nil && graphInst.Nodes != nil
+//@ loop 1: invariant forall s int :: 0 <= s && s < len(tab) ==> graphInst.Nodes.Lookup[fmt.Sprintf("state_%d", s)] != nil &&
+//@     has(graphInst.Nodes.Lookup[fmt.Sprintf("state_%d", s)].Attrs, "label") && len(graphInst.Nodes.Lookup[fmt.Sprintf("state_%d", s)].Attrs["label"]) >= 1
+// cells of one row
+//@ loop 2: invariant graphInst != nil && graphInst.Nodes != nil && xlen >= before(xlen)
+//@ loop 2: invariant forall s int :: 0 <= s && s < len(tab) ==> graphInst.Nodes.Lookup[fmt.Sprintf("state_%d", s)] != nil &&
+//@     has(graphInst.Nodes.Lookup[fmt.Sprintf("state_%d", s)].Attrs, "label") && len(graphInst.Nodes.Lookup[fmt.Sprintf("state_%d", s)].Attrs["label"]) >= 1
+// edges: nothing missing, nothing extra
+//@ loop 2: invariant [C18] forall j int :: 0 <= j && j < idx2 && isStateCell(lalr, r[j]) ==>
+//@     (exists e int :: before(xlen) <= e && e < xlen && isEdgeEntry(e, graphInst, stateNum, r[j], fmt.Sprintf("\"%s\"", symLabel(lalr, j))))
+//@ loop 2: invariant [C18] forall e int :: before(xlen) <= e && e < xlen && xlog_fn(e) == "(*gographviz.Graph).AddEdge" ==>
+//@     (exists j int :: 0 <= j && j < idx2 && isStateCell(lalr, r[j]) && isEdgeEntry(e, graphInst, stateNum, r[j], fmt.Sprintf("\"%s\"", symLabel(lalr, j))))
+// reduce fields: nothing missing, nothing extra
+//@ loop 2: invariant [C18] forall j int :: 0 <= j && j < idx2 && r[j] < 0 ==>
+//@     (exists p int :: 0 <= p && p < len(look) && look[p] == fmt.Sprintf("%s: reduce rule at %d", symLabel(lalr, j), -r[j]))
+//@ loop 2: invariant [C18] forall p int :: 0 <= p && p < len(look) ==>
+//@     (exists j int :: 0 <= j && j < idx2 && r[j] < 0 && look[p] == fmt.Sprintf("%s: reduce rule at %d", symLabel(lalr, j), -r[j]))
+// the accepting cell only decorates the node
+//@ before_stmt [C18] `n.Attrs.Add("style", "filled")` d == len(lalr.G.LR0.LR0Closure) + 200
+// the reduce fields reach the label whenever there are any
+//@ after_stmt [C18] "if len(look) != 0" len(look) != 0 ==> (exists pre string :: graphInst.Nodes.Lookup[fmt.Sprintf("state_%d", stateNum)].Attrs["label"] == pre + fmt.Sprintf("|{%s}\"", strings.Join(look, "|")))
